@@ -67,6 +67,7 @@ public:
   std::vector<double> engine_mass, engine_charge;
   std::vector<cvm::rvector> engine_pos, engine_tf;
   uint64_t rng_state = 0x9E3779B97F4A7C15ULL;
+  std::vector<double> drawn;      // Gaussian numbers handed out during the current step (oracle of C17)
   smp_mode_t smp_mode_v = smp_mode_t::none;
   int n_threads = 1, cur_thread = 0;
   std::vector<int> perm;          // permutation applied to items of the next smp loops (empty = identity)
